@@ -91,6 +91,8 @@ CONF_MAIN = r'''
 // against the real crates the repository builds with (same Cargo.lock).
 use std::fs::File;
 const _: () = assert!(libc::EOPNOTSUPP == 95 && libc::EINVAL == 22 && libc::EXDEV == 18 && libc::ETXTBSY == 26);
+const _: () = assert!(libc::EPERM == 1 && libc::EIO == 5 && libc::EAGAIN == 11 && libc::EACCES == 13 && libc::EBUSY == 16 && libc::ENOSPC == 28 && libc::ENOSYS == 38 && libc::ENOTSUP == 95);
+const _: () = assert!(rustix::io::Errno::IO.raw_os_error() == 5 && rustix::io::Errno::AGAIN.raw_os_error() == 11 && rustix::io::Errno::ACCESS.raw_os_error() == 13 && rustix::io::Errno::BUSY.raw_os_error() == 16 && rustix::io::Errno::INVAL.raw_os_error() == 22 && rustix::io::Errno::NOSPC.raw_os_error() == 28 && rustix::io::Errno::INTR.raw_os_error() == 4 && rustix::io::Errno::OPNOTSUPP.raw_os_error() == 95);
 const _: () = assert!(linux_raw_sys::ioctl::FICLONE == 0x40049409);
 const _: () = assert!(linux_raw_sys::ioctl::FIEMAP_EXTENT_LAST == 0x1 && linux_raw_sys::ioctl::FIEMAP_EXTENT_SHARED == 0x2000);
 const _: () = assert!(rustix::io::Errno::NOSYS.raw_os_error() == 38 && rustix::io::Errno::PERM.raw_os_error() == 1
